@@ -1,6 +1,6 @@
 (** C10 - AudioReader framing: fixed-size blocks, overlap and max_read are exact. *)
 From Coq Require Import ZArith List Bool.
-From AV Require Import Base.PyList Tok.Model IO.Reader IO.ReaderProofs.
+From AV Require Import Base.PyList Tok.Model IO.Reader IO.ReaderProofs IO.Layers.
 Import ListNotations.
 Open Scope Z_scope.
 
@@ -32,9 +32,24 @@ Theorem C10_limit : forall S (data : list S) W H rec m k, 1 <= W -> (forall h, H
   pos (fst (reads (mk_reader data W H rec (Some m)) k)) <= Z.max 0 m.
 Proof. exact ReaderProofs.C10_limit. Qed.
 
+(** the composed model of the reader stack, layer by layer: its limiter is [lim_layer] over the layer below, its fixed-size
+    reader is [fixed_layer] over the limiter -- the layers the methods _Limiter.read and _FixedSizeAudioReader.read are proved equal
+    to by translation on every run (TieReader.v) *)
+Theorem C10_limiter_is_layer : forall (S : Type) (r : @rd S) n mx,
+  limit r = Some mx ->
+  snd (lim_read r n) = snd (lim_layer mx (nread r) n (fun k => snd (base_read r k)))
+  /\ nread (fst (lim_read r n)) = fst (lim_layer mx (nread r) n (fun k => snd (base_read r k))).
+Proof. exact (@lim_read_is_lim_layer). Qed.
+
+Theorem C10_fixed_is_layer : forall (S : Type) (r : @rd S),
+  hop r = None -> snd (read r) = fixed_layer (bsize r) (fun k => snd (lim_read r k)).
+Proof. exact (@read_fixed_is_fixed_layer). Qed.
+
 Print Assumptions C10_fixed.
 Print Assumptions C10_fixed_concat.
 Print Assumptions C10_overlap.
 Print Assumptions C10_overlap_full.
 Print Assumptions C10_overlap_last_nonempty.
 Print Assumptions C10_limit.
+Print Assumptions C10_limiter_is_layer.
+Print Assumptions C10_fixed_is_layer.
